@@ -329,7 +329,7 @@ def run(chk):
             a = cm.gen_annotation(rng, kinds=cm.APRIORI + ['tagged'], isotope_p=0.7)
             kw = gen_kw(rng, label_p=0.3)
         else:               # error paths: odd values, ambiguous letters
-            a = cm.gen_annotation(rng, residues=cm.RES24 + rng.choice(['BZ', 'b1', 'B', 'Z*']) if rng.random() < 0.4 else cm.RES24,
+            a = cm.gen_annotation(rng, residues=cm.RES24 + rng.choice(['BZ', 'b1', 'B', 'Z*', '.', '(+']) if rng.random() < 0.4 else cm.RES24,
                                   kinds=cm.APRIORI + ['tagged', 'odd'], isotope_p=0.2)
             kw = gen_kw(rng, label_p=0.1)
             if rng.random() < 0.1:
